@@ -29,6 +29,8 @@ inductive Err where
   | zeroDivisionError
   /-- `set.union(*(… for ratex in r_exprs))` with no reaction at all (ode.py:187): "unbound method set.union() needs an argument" -/
   | typeError
+  /-- a variable the rate expressions read is neither a substance nor a passed parameter -/
+  | keyError
   deriving DecidableEq, Repr
 
 def Err.name : Err → String
@@ -36,6 +38,7 @@ def Err.name : Err → String
   | .indexError => "IndexError"
   | .zeroDivisionError => "ZeroDivisionError"
   | .typeError => "TypeError"
+  | .keyError => "KeyError"
 
 section Step
 variable {α : Type} [NatCast α] [Sub α] [Div α] [Neg α] [LT α] [DecidableLT α] [DecidableEq α]
@@ -149,6 +152,38 @@ def maxEulerStepCb (keys : List σ) (comps : List (EqSolve.Comp α)) (rs : List 
   | .error e => .error (liftErr e)
   | .ok ub =>
     match fvec keys rs y with
+    | .error e => .error e
+    | .ok f => maxEulerStep y ub f
+
+/-! ### stirred tank (`get_odesys(rsys, cstr=True)`): feed ratio and feed concentrations are parameters of the callback -/
+
+/-- `variables = dict(chain(y.items(), p.items()))` (ode.py:347): the state by substance name, then the parameters (a parameter
+    named like a substance would win) -/
+def variablesDict (keys : List σ) (y : List α) (p : List (σ × α)) : List (σ × α) :=
+  dictOf (List.zip keys y ++ p)
+
+/-- `odesys.f_cb(x, y, p)` for a system built with `cstr=True`: `rsys.rates(variables, cstr_fr_fc=(fr_key, fc))`
+    (`Kinetics.ratesDict`: a variable that is looked up but absent is a `KeyError`), read in the order of `names` -/
+def fvecCstr (keys : List σ) (rs : List (Reaction σ α)) (cs : Cstr σ) (p : List (σ × α)) (y : List α) : Except Err (List α) :=
+  match ratesDict (variablesDict keys y p) rs none (some cs) with
+  | none => .error .keyError
+  | some d =>
+    keys.mapM fun s =>
+      match dget? d s with
+      | some v => .ok v
+      | none => .error .valueError
+
+/-- `extra['max_euler_step_cb'](x, y, p)` of a system built with `cstr=True`.  The bounds are still the ELEMENTAL bounds of the
+    current state (`rsys.upper_conc_bounds(_y)`), although a stirred tank is an open system: the step keeps `y + h·f` inside
+    them by construction, they are just not a physical limit any more. -/
+def maxEulerStepCbCstr (keys : List σ) (comps : List (EqSolve.Comp α)) (rs : List (Reaction σ α)) (cs : Cstr σ)
+    (p : List (σ × α)) (y : List α) : Except Err α :=
+  if rs.isEmpty then .error .typeError
+  else
+  match EqSolve.upperConcBounds comps y with
+  | .error e => .error (liftErr e)
+  | .ok ub =>
+    match fvecCstr keys rs cs p y with
     | .error e => .error e
     | .ok f => maxEulerStep y ub f
 
